@@ -110,9 +110,21 @@ class Ctx:
         if 1 <= l <= fn.argc:
             return lin_var(("len", self.name(l)))
         ds = def_sites(fn, l)
+        if len(ds) > 1 and depth < 8:
+            # several definitions (e.g. `if c { &mut a[..n] } else { &mut b[..n] }`): use the common length
+            forms = []
+            for d in ds:
+                forms.append(self._length_of_def(l, d, depth + 1))
+            if forms and all(f is not None and f == forms[0] for f in forms):
+                return forms[0]
+            return lin_var(("len", self.name(l)))
         if len(ds) != 1:
             return lin_var(("len", self.name(l)))
-        b, kind, payload = ds[0]
+        return self._length_of_def(l, ds[0], depth)
+
+    def _length_of_def(self, l, d, depth):
+        fn = self.fn
+        b, kind, payload = d
         if kind == "assign":
             rv = payload["rv"]
             src = None
